@@ -65,7 +65,7 @@ theorem err_preserved_aggregate (S : Sem χ ρ ν ε κ α) (L : LimEnv ε) (sit
 theorem err_preserved_plan (S : Sem χ ρ ν ε κ α) (Q : Quirks) (hq : Q.forwardsErr) (L : LimEnv ε)
     (p : Plan χ ρ ε α) (site : Site) (env : ρ) (d : Nat)
     (h : allOk ((runL S Q L site env p).take d) = true) :
-    ∀ x ∈ trace S Q L site env p d, Item.isOk x.item = true :=
+    ∀ x ∈ trace false S Q L site env p d, Item.isOk x.item = true :=
   trace_ok S Q hq L p site env d h
 
 /-- `Ok rows` at the driver ⇒ nothing handed over anywhere in the tree was an `Err` -/
